@@ -273,4 +273,421 @@ Section WithPathMatch.
       rewrite <- Hs. rewrite (nomsg_queries_static ug _ _ _ _ _ ms Hn Hf), Hseen.
       cbn [nomsg_queries]. reflexivity.
   Qed.
+
+  (* ---------- one file, all files (single executor) ---------- *)
+  Lemma existsb_static_gen (p : supp -> bool) (Hp : forall x, p (static x) = p x) l : forall l',
+    map static l' = map static l -> existsb p l' = existsb p l.
+  Proof.
+    induction l as [|s l IH]; intros [|s' l'] H; try discriminate; [reflexivity|].
+    cbn [map] in H.
+    assert (Hs : static s' = static s) by (apply (f_equal (hd (static s))) in H; exact H).
+    assert (Hl : map static l' = map static l) by (apply (f_equal (@tl _)) in H; exact H).
+    cbn [existsb].
+    rewrite (IH _ Hl). rewrite <- (Hp s'), Hs, Hp. reflexivity.
+  Qed.
+
+  Lemma existsb_same_params_static s l l' :
+    map static l' = map static l -> existsb (same_params s) l' = existsb (same_params s) l.
+  Proof. apply existsb_static_gen. reflexivity. Qed.
+
+  Definition inline_present (l : list supp) (f : finput) : Prop :=
+    Forall (fun s => existsb (same_params s) l = true) (f_inline f).
+
+  Lemma inline_present_static l l' f : map static l' = map static l -> inline_present l f -> inline_present l' f.
+  Proof.
+    intros H. unfold inline_present. apply Forall_impl. intros s Hs.
+    rewrite (existsb_same_params_static s _ _ H). exact Hs.
+  Qed.
+
+  Lemma add_all_present ss : forall l, Forall (fun s => existsb (same_params s) l = true) ss -> add_all l ss = l.
+  Proof.
+    unfold add_all. induction ss as [|s ss IH]; intros l H; cbn [fold_left]; [reflexivity|].
+    inversion H as [|? ? H1 H2]; subst. unfold add_supp at 2. rewrite H1. cbn [fst]. apply IH. exact H2.
+  Qed.
+
+  Definition file_queries (ug : bool) (nomsg nofail : list supp) (f : finput) : list query :=
+    (dummy (f_path f), true) :: nomsg_queries ug nomsg nofail [] (f_msgs f).
+
+  Lemma file_queries_static ug n n' fl fl' f :
+    map static n' = map static n -> map static fl' = map static fl ->
+    file_queries ug n' fl' f = file_queries ug n fl f.
+  Proof. intros. unfold file_queries. f_equal. apply nomsg_queries_static; assumption. Qed.
+
+  Lemma check_file_spec ug nomsg nofail f fr :
+    check_file pm ug nomsg nofail f = Some fr -> inline_present nomsg f ->
+    r_nomsg fr = map (derive (file_queries ug nomsg nofail f) (f_locs f)) nomsg
+    /\ map static (r_nofail fr) = map static nofail
+    /\ r_out fr = spec_forward pm ug nomsg [] (f_msgs f)
+    /\ r_exit fr = spec_exit pm ug nomsg nofail [] (f_msgs f).
+  Proof.
+    unfold check_file. intros H Hin. cbv zeta in H.
+    destruct (list_is_suppressed pm nomsg (dummy (f_path f)) true) as [[n1 b1]|] eqn:H1; [|discriminate].
+    apply list_is_suppressed_eq in H1. destruct H1 as [-> _]. rewrite map_upd_derive in H.
+    rewrite add_all_present in H.
+    2:{ apply (inline_present_static nomsg); [apply map_static_derive|exact Hin]. }
+    rewrite mark_checked_derive, map_derive_derive in H. cbn [app] in H.
+    match type of H with context [logger_run pm ug (mkL ?n _ _ _) _] => set (n3 := n) in * end.
+    assert (Hst : map static n3 = map static nomsg) by apply map_static_derive.
+    revert H.
+    destruct (logger_run pm ug (mkL n3 nofail [] false) (f_msgs f)) as [[st outs]|] eqn:Hr; [|discriminate].
+    intros H. injection H as <-. cbn [r_nomsg r_nofail r_out r_exit].
+    pose proof (logger_run_spec pm ug _ _ _ _ Hr) as (Ho & He & _ & Hf). cbn [l_nomsg l_nofail l_seen l_exit] in *.
+    apply logger_run_nomsg in Hr. cbn [l_nomsg l_nofail l_seen] in Hr.
+    rewrite (nomsg_queries_static ug nomsg n3 nofail nofail [] (f_msgs f) Hst eq_refl) in Hr.
+    repeat split.
+    - rewrite Hr. unfold n3. rewrite map_derive_derive. rewrite app_nil_r. reflexivity.
+    - exact Hf.
+    - rewrite Ho. apply spec_forward_static. exact Hst.
+    - rewrite He. cbn [orb]. apply spec_exit_static; [exact Hst|reflexivity].
+  Qed.
+
+  Definition single_queries (nomsg nofail : list supp) (fs : list finput) : list query :=
+    flat_map (file_queries true nomsg nofail) fs.
+
+  Lemma single_queries_static n n' fl fl' fs :
+    map static n' = map static n -> map static fl' = map static fl ->
+    single_queries n' fl' fs = single_queries n fl fs.
+  Proof.
+    intros Hn Hf. unfold single_queries. induction fs as [|f fs IH]; cbn [flat_map]; [reflexivity|].
+    rewrite IH, (file_queries_static true n n' fl fl' f Hn Hf). reflexivity.
+  Qed.
+
+  Lemma existsb_spec_exit_static ug n n' fl fl' (fs : list finput) :
+    map static n' = map static n -> map static fl' = map static fl ->
+    existsb (fun f => spec_exit pm ug n' fl' [] (f_msgs f)) fs = existsb (fun f => spec_exit pm ug n fl [] (f_msgs f)) fs.
+  Proof. intros Hn Hf. apply existsb_ext'. intros f. apply spec_exit_static; assumption. Qed.
+
+  Theorem single_files_spec fs : forall nomsg nofail sr,
+    single_files pm nomsg nofail fs = Some sr -> Forall (inline_present nomsg) fs ->
+    sr_nomsg sr = map (derive (single_queries nomsg nofail fs) (flat_map f_locs fs)) nomsg
+    /\ map static (sr_nofail sr) = map static nofail
+    /\ sr_reported sr = flat_map (fun f => pick (spec_forward pm true nomsg [] (f_msgs f)) (f_msgs f)) fs
+    /\ (sr_result sr =? 0) = negb (existsb (fun f => spec_exit pm true nomsg nofail [] (f_msgs f)) fs).
+  Proof.
+    induction fs as [|f fs IH]; intros nomsg nofail sr H Hin; cbn [single_files] in H.
+    - injection H as <-. cbn. rewrite (map_ext _ (fun s => s)), map_id; [auto|]. intros; apply derive_nil.
+    - destruct (check_file pm true nomsg nofail f) as [fr|] eqn:Hc; [|discriminate].
+      destruct (single_files pm (r_nomsg fr) (r_nofail fr) fs) as [sr1|] eqn:Hs; [|discriminate].
+      injection H as <-. cbn [sr_nomsg sr_nofail sr_reported sr_result].
+      inversion Hin as [|? ? Hin1 Hin2]; subst.
+      apply check_file_spec in Hc; [|exact Hin1]. destruct Hc as (Hn & Hf & Ho & He).
+      assert (Hst : map static (r_nomsg fr) = map static nomsg) by (rewrite Hn; apply map_static_derive).
+      apply IH in Hs.
+      2:{ revert Hin2. apply Forall_impl. intros x. apply inline_present_static. exact Hst. }
+      destruct Hs as (Hn2 & Hf2 & Hr2 & Hx2).
+      rewrite (single_queries_static _ _ _ _ fs Hst Hf) in Hn2.
+      repeat split.
+      + rewrite Hn2, Hn, map_derive_derive. reflexivity.
+      + congruence.
+      + cbn [flat_map]. rewrite Hr2, Ho. f_equal. apply flat_map_ext. intros x.
+        rewrite (spec_forward_static pm true _ _ [] (f_msgs x) Hst). reflexivity.
+      + cbn [existsb]. rewrite (existsb_spec_exit_static true _ _ _ _ fs Hst Hf) in Hx2.
+        rewrite He. destruct (spec_exit pm true nomsg nofail [] (f_msgs f)); cbn [orb negb].
+        * destruct (sr_result sr1); reflexivity.
+        * rewrite N.add_0_l. exact Hx2.
+  Qed.
+
+  (* ---------- the unmatched-suppression report ---------- *)
+  Lemma any_filter_spec filters id b : any_filter filters id = Some b -> b = existsb (fun f => globb f id) filters.
+  Proof.
+    revert b. induction filters as [|x l IH]; intros b H; cbn [any_filter existsb] in *.
+    - congruence.
+    - destruct (oglob x id) as [[|]|] eqn:Hx; try discriminate.
+      + apply oglob_spec in Hx. rewrite <- Hx. injection H as <-. reflexivity.
+      + apply oglob_spec in Hx. rewrite <- Hx. cbn [orb]. auto.
+  Qed.
+
+  Definition filtered_out (filters : list str) (s : supp) : bool := existsb (fun f => globb f (s_id s)) filters.
+
+  Lemma get_unmatched_aux_spec filters all um : forall r,
+    get_unmatched_aux filters all um = Some r ->
+    forall s, In s r <-> In s um /\ existsb (fun s2 => covers s2 s) all = false /\ filtered_out filters s = false.
+  Proof.
+    induction um as [|x um IH]; intros r H s; cbn [get_unmatched_aux] in H.
+    - injection H as <-. cbn. tauto.
+    - destruct (get_unmatched_aux filters all um) as [r'|] eqn:Hr; [|discriminate].
+      specialize (IH _ eq_refl s).
+      destruct (existsb (fun s2 => covers s2 x) all) eqn:Hc.
+      + injection H as <-. rewrite IH. cbn [In]. split; [tauto|].
+        intros [[->|Hi] [H1 H2]]; [congruence|tauto].
+      + destruct (any_filter filters (s_id x)) as [[|]|] eqn:Hf; [| |discriminate];
+          apply any_filter_spec in Hf; injection H as <-.
+        * rewrite IH. cbn [In]. split; [tauto|].
+          intros [[->|Hi] [H1 H2]]; [unfold filtered_out in H2; congruence|tauto].
+        * cbn [In]. rewrite IH. split.
+          { intros [->|Hi]; [unfold filtered_out; auto|tauto]. }
+          { tauto. }
+  Qed.
+
+  Lemma existsb_filter {A} (p q : A -> bool) l : existsb p (filter q l) = existsb (fun x => q x && p x) l.
+  Proof. induction l as [|x l IH]; cbn; [reflexivity|]. destruct (q x); cbn; rewrite IH; reflexivity. Qed.
+
+  (* s is selected by the group `sel`, no selected unmatchedSuppression entry covers it, no filter applies *)
+  Definition group_reports (filters : list str) (sel : supp -> bool) (l : list supp) (s : supp) : Prop :=
+    In s l /\ sel s = true /\ existsb (fun s2 => sel s2 && covers s2 s) l = false /\ filtered_out filters s = false.
+
+  Lemma get_unmatched_filter_spec filters sel l r :
+    get_unmatched filters (filter sel l) = Some r -> forall s, In s r <-> group_reports filters sel l s.
+  Proof.
+    intros H s. unfold get_unmatched in H. rewrite (get_unmatched_aux_spec _ _ _ _ H s).
+    unfold group_reports. rewrite filter_In, existsb_filter. tauto.
+  Qed.
+
+  Lemma locals_of_spec filters l paths : forall r,
+    locals_of pm filters l paths = Some r ->
+    forall s, In s r <-> exists p, In p paths /\ group_reports filters (unmatched_local pm p) l s.
+  Proof.
+    induction paths as [|p paths IH]; intros r H s; cbn [locals_of] in H.
+    - injection H as <-. cbn. split; [tauto|]. intros [p [[] _]].
+    - destruct (get_unmatched filters (filter (unmatched_local pm p) l)) as [a|] eqn:Ha; [|discriminate].
+      destruct (locals_of pm filters l paths) as [b|] eqn:Hb; [|discriminate].
+      injection H as <-. rewrite in_app_iff, (get_unmatched_filter_spec _ _ _ _ Ha s), (IH _ eq_refl s).
+      cbn [In]. split.
+      + intros [H|[q [Hq H]]]; [exists p; auto|exists q; auto].
+      + intros [q [[<-|Hq] H]]; [auto|right; exists q; auto].
+  Qed.
+
+  (* what reportUnmatchedSuppressions emits, declaratively *)
+  Definition should_report (filters : list str) (inline_enabled : bool) (l : list supp) (paths : list str) (s : supp) : Prop :=
+    bail l = false
+    /\ ((exists p, In p paths /\ group_reports filters (unmatched_local pm p) l s)
+        \/ (inline_enabled = true /\ group_reports filters unmatched_inline l s)
+        \/ group_reports filters unmatched_global l s).
+
+  Theorem report_unmatched_spec filters ie l paths r :
+    report_unmatched pm filters ie l paths = Some r -> forall s, In s r <-> should_report filters ie l paths s.
+  Proof.
+    unfold report_unmatched, should_report. intros H s. destruct (bail l).
+    - injection H as <-. cbn. split; [tauto|]. intros [? _]; discriminate.
+    - destruct (locals_of pm filters l paths) as [a|] eqn:Ha; [|discriminate].
+      destruct (get_unmatched filters (filter unmatched_global l)) as [c|] eqn:Hc.
+      2:{ destruct ie; [destruct (get_unmatched filters (filter unmatched_inline l))|]; discriminate. }
+      destruct ie.
+      + destruct (get_unmatched filters (filter unmatched_inline l)) as [b|] eqn:Hb; [|discriminate].
+        injection H as <-. rewrite !in_app_iff, (locals_of_spec _ _ _ _ Ha s),
+          (get_unmatched_filter_spec _ _ _ _ Hb s), (get_unmatched_filter_spec _ _ _ _ Hc s). tauto.
+      + injection H as <-. rewrite !in_app_iff, (locals_of_spec _ _ _ _ Ha s),
+          (get_unmatched_filter_spec _ _ _ _ Hc s). cbn [In]. split; [tauto|].
+        intros [_ [H|[[H _]|H]]]; [auto|discriminate|auto].
+  Qed.
+
+  Lemma selectors_unmatched file s :
+    (unmatched_local pm file s = true \/ unmatched_inline s = true \/ unmatched_global s = true) -> s_matched s = false.
+  Proof.
+    unfold unmatched_local, unmatched_inline, unmatched_global.
+    destruct (s_matched s); [|reflexivity]. cbn. rewrite !andb_false_r. cbn. intros [H|[H|H]]; discriminate.
+  Qed.
+
+  Theorem reported_never_matched filters ie l paths s :
+    should_report filters ie l paths s -> In s l /\ s_matched s = false.
+  Proof.
+    intros [_ [[p [_ (Hi & Hs & _)]]|[[_ (Hi & Hs & _)]|(Hi & Hs & _)]]]; split; try exact Hi.
+    - apply (selectors_unmatched p). auto.
+    - apply (selectors_unmatched []). auto.
+    - apply (selectors_unmatched []). auto.
+  Qed.
+
+  (* ---------- the whole run, single executor ---------- *)
+  Definition run_queries (nomsg nofail : list supp) (fs : list finput) (wp : list (emsg * str)) : list query :=
+    single_queries nomsg nofail fs ++ nomsg_queries true nomsg nofail [] wp.
+
+  (* some finding raises the exit code: a file's, or a whole-program one *)
+  Definition findings_raise (nomsg nofail : list supp) (fs : list finput) (wp : list (emsg * str)) : bool :=
+    existsb (fun f => spec_exit pm true nomsg nofail [] (f_msgs f)) fs || spec_exit pm true nomsg nofail [] wp.
+
+  Lemma is_nil_list_map {A B} (f : A -> B) l : is_nil_list (map f l) = is_nil_list l.
+  Proof. destruct l; reflexivity. Qed.
+
+  Theorem whole_run_single_spec cfg nomsg nofail fs wp o :
+    whole_run pm None cfg nomsg nofail fs wp = Some o -> Forall (inline_present nomsg) fs ->
+    let final := map (derive (run_queries nomsg nofail fs wp) (flat_map f_locs fs)) nomsg in
+    o_nomsg o = final
+    /\ o_reported o = flat_map (fun f => pick (spec_forward pm true nomsg [] (f_msgs f)) (f_msgs f)) fs
+                      ++ pick (spec_forward pm true nomsg [] wp) wp
+    /\ (forall s, In s (o_unmatched o) <->
+                  c_info cfg = true /\ nomsg <> [] /\ should_report (c_filters cfg) (c_inline cfg) final (map f_path fs) s)
+    /\ o_status o = if findings_raise nomsg nofail fs wp || negb (is_nil_list (o_unmatched o))
+                    then c_exitcode cfg else 0.
+  Proof.
+    unfold whole_run, exec_files. intros H Hin.
+    destruct (single_files pm nomsg nofail fs) as [sr|] eqn:Hs; [|discriminate].
+    apply single_files_spec in Hs; [|exact Hin]. destruct Hs as (Hn & Hf & Hrep & Hres).
+    assert (Hst : map static (sr_nomsg sr) = map static nomsg) by (rewrite Hn; apply map_static_derive).
+    destruct (logger_run pm true (mkL (sr_nomsg sr) (sr_nofail sr) [] false) wp) as [[st outs]|] eqn:Hr; [|discriminate].
+    pose proof (logger_run_spec pm true _ _ _ _ Hr) as (Ho & He & _ & _). cbn [l_nomsg l_nofail l_seen l_exit] in *.
+    apply logger_run_nomsg in Hr. cbn [l_nomsg l_nofail l_seen] in Hr.
+    rewrite (nomsg_queries_static true _ _ _ _ [] wp Hst Hf), Hn, map_derive_derive, app_nil_r in Hr.
+    rewrite (spec_forward_static pm true _ _ [] wp Hst) in Ho.
+    rewrite (spec_exit_static pm true _ _ _ _ [] wp Hst Hf) in He. cbn [orb] in He.
+    fold (run_queries nomsg nofail fs wp) in Hr.
+    cbv zeta in H. rewrite Hr in H. rewrite is_nil_list_map in H.
+    set (final := map (derive (run_queries nomsg nofail fs wp) (flat_map f_locs fs)) nomsg) in *.
+    destruct (c_info cfg && negb (is_nil_list nomsg)) eqn:Hinfo.
+    - destruct (report_unmatched pm (c_filters cfg) (c_inline cfg) final (map f_path fs)) as [u|] eqn:Hu; [|discriminate].
+      injection H as <-. cbn [o_nomsg o_reported o_unmatched o_status].
+      apply andb_prop in Hinfo. destruct Hinfo as [Hi Hne].
+      split; [reflexivity|]. split; [|split].
+      + rewrite Hrep, Ho. reflexivity.
+      + intros s. split.
+        * intros Hx. apply (report_unmatched_spec _ _ _ _ _ Hu s) in Hx. split; [exact Hi|]. split; [|exact Hx].
+          intros ->. discriminate.
+        * intros (_ & _ & Hx). apply (report_unmatched_spec _ _ _ _ _ Hu s). exact Hx.
+      + unfold findings_raise. rewrite He.
+        destruct (sr_result sr =? 0) eqn:Hz.
+        * apply N.eqb_eq in Hz. rewrite Hz, N.lor_0_l. symmetry in Hres. apply negb_true_iff in Hres. rewrite Hres.
+          cbn [orb]. destruct (spec_exit pm true nomsg nofail [] wp); cbn [orb N.eqb].
+          { destruct u; reflexivity. }
+          { destruct u; cbn [is_nil_list negb andb orb]; [reflexivity|].
+            destruct (c_exitcode cfg =? 0) eqn:Hc; [apply N.eqb_eq in Hc; congruence|reflexivity]. }
+        * symmetry in Hres. apply negb_false_iff in Hres. rewrite Hres. cbn [orb].
+          assert (Hl : (N.lor (sr_result sr) (if spec_exit pm true nomsg nofail [] wp then 1 else 0) =? 0) = false).
+          { apply N.eqb_neq. intros Hl. apply N.lor_eq_0_iff in Hl. destruct Hl as [Hl _].
+            apply N.eqb_neq in Hz. contradiction. }
+          rewrite Hl, andb_false_r. rewrite Hl. reflexivity.
+    - injection H as <-. cbn [o_nomsg o_reported o_unmatched o_status].
+      split; [reflexivity|]. split; [|split].
+      + rewrite Hrep, Ho. reflexivity.
+      + intros s. split.
+        * intros [].
+        * intros (Hi & Hne & _). rewrite Hi in Hinfo. destruct nomsg; [congruence|discriminate].
+      + unfold findings_raise. rewrite He. cbn [is_nil_list negb andb]. rewrite orb_false_r.
+        destruct (sr_result sr =? 0) eqn:Hz.
+        * apply N.eqb_eq in Hz. rewrite Hz, N.lor_0_l. symmetry in Hres. apply negb_true_iff in Hres. rewrite Hres.
+          cbn [orb]. destruct (spec_exit pm true nomsg nofail [] wp); reflexivity.
+        * symmetry in Hres. apply negb_false_iff in Hres. rewrite Hres. cbn [orb].
+          assert (Hl : (N.lor (sr_result sr) (if spec_exit pm true nomsg nofail [] wp then 1 else 0) =? 0) = false).
+          { apply N.eqb_neq. intros Hl. apply N.lor_eq_0_iff in Hl. destruct Hl as [Hl _].
+            apply N.eqb_neq in Hz. contradiction. }
+          rewrite Hl. reflexivity.
+  Qed.
+
+  (* every finding handed to the logger is put to the nomsg list *)
+  Lemma nomsg_queries_all ug n f ms : forall seen e t, In (e, t) ms -> In (e, ug) (nomsg_queries ug n f seen ms).
+  Proof.
+    induction ms as [|[e0 t0] ms IH]; intros seen e t H; [destruct H|].
+    cbn [nomsg_queries]. destruct H as [H|H].
+    - injection H as -> ->. cbn [app]. left. reflexivity.
+    - apply in_or_app. right. eapply IH. exact H.
+  Qed.
+
+  (* and nothing else is: a query of the logger is about one of its findings *)
+  Lemma nomsg_queries_only ug n f ms : forall seen e g, In (e, g) (nomsg_queries ug n f seen ms) ->
+    (g = ug \/ g = true) /\ exists t, In (e, t) ms.
+  Proof.
+    induction ms as [|[e0 t0] ms IH]; intros seen e g H; [destruct H|].
+    cbn [nomsg_queries] in H. apply in_app_or in H. destruct H as [H|H].
+    - destruct H as [H|H].
+      + injection H as -> ->. split; [auto|]. exists t0. left. reflexivity.
+      + destruct (_ && _) in H; [|destruct H]. destruct H as [H|[]]. injection H as -> ->.
+        split; [auto|]. exists t0. left. reflexivity.
+    - apply IH in H. destruct H as [H1 [t H2]]. split; [exact H1|]. exists t. right. exact H2.
+  Qed.
+
+  Lemma existsb_false_forall {A} (p : A -> bool) l : existsb p l = false -> forall x, In x l -> p x = false.
+  Proof.
+    intros H x Hx. destruct (p x) eqn:Hp; [|reflexivity].
+    assert (existsb p l = true) by (apply existsb_exists; exists x; auto). congruence.
+  Qed.
+
+  Lemma forall_existsb_false {A} (p : A -> bool) l : (forall x, In x l -> p x = false) -> existsb p l = false.
+  Proof.
+    intros H. destruct (existsb p l) eqn:He; [|reflexivity].
+    apply existsb_exists in He. destruct He as [x [Hx Hp]]. rewrite (H x Hx) in Hp. discriminate.
+  Qed.
+
+  (* all findings of a run (files and whole program), whether shown, suppressed or duplicate *)
+  Definition finding_of (fs : list finput) (wp : list (emsg * str)) (e : emsg) : Prop :=
+    (exists f t, In f fs /\ In (e, t) (f_msgs f)) \/ (exists t, In (e, t) wp).
+
+  Lemma run_queries_all nomsg nofail fs wp e : finding_of fs wp e -> In (e, true) (run_queries nomsg nofail fs wp).
+  Proof.
+    unfold run_queries, single_queries. intros [[f [t [Hf Ht]]]|[t Ht]]; apply in_or_app.
+    - left. apply in_flat_map. exists f. split; [exact Hf|]. unfold file_queries. right.
+      eapply nomsg_queries_all. exact Ht.
+    - right. eapply nomsg_queries_all. exact Ht.
+  Qed.
+
+  Lemma run_queries_only nomsg nofail fs wp e g : In (e, g) (run_queries nomsg nofail fs wp) ->
+    g = true /\ (finding_of fs wp e \/ exists f, In f fs /\ e = dummy (f_path f)).
+  Proof.
+    unfold run_queries, single_queries. intros H. apply in_app_or in H. destruct H as [H|H].
+    - apply in_flat_map in H. destruct H as [f [Hf H]]. unfold file_queries in H. destruct H as [H|H].
+      + injection H as <- <-. split; [reflexivity|]. right. exists f. auto.
+      + apply nomsg_queries_only in H. destruct H as [Hg [t Ht]]. split; [destruct Hg; auto|].
+        left. left. exists f, t. auto.
+    - apply nomsg_queries_only in H. destruct H as [Hg [t Ht]]. split; [destruct Hg; auto|].
+      left. right. exists t. auto.
+  Qed.
+
+  (* single executor: an unmatchedSuppression finding is never about a suppression that
+     hides some finding of the run *)
+  Theorem single_reported_hides_nothing cfg nomsg nofail fs wp o s :
+    whole_run pm None cfg nomsg nofail fs wp = Some o -> Forall (inline_present nomsg) fs ->
+    In s (o_unmatched o) ->
+    exists s0, In s0 nomsg /\ static s = static s0 /\ s_matched s0 = false
+               /\ forall e, finding_of fs wp e -> hides pm true e s0 = false.
+  Proof.
+    intros H Hin Hs. apply whole_run_single_spec in H; [|exact Hin]. cbv zeta in H.
+    destruct H as (_ & _ & Hu & _). apply Hu in Hs. destruct Hs as (_ & _ & Hs).
+    apply reported_never_matched in Hs. destruct Hs as [Hi Hm].
+    apply in_map_iff in Hi. destruct Hi as [s0 [<- Hi]]. exists s0. split; [exact Hi|]. split; [reflexivity|].
+    unfold derive in Hm. cbn in Hm. apply orb_false_elim in Hm. destruct Hm as [Hm1 Hm2].
+    split; [exact Hm1|]. intros e He.
+    apply (existsb_false_forall _ _ Hm2 (e, true)). apply run_queries_all. exact He.
+  Qed.
+
+  Lemma dummy_hides_nothing g p s : is_nil (s_id s) = false -> hides pm g (dummy p) s = false.
+  Proof.
+    intros Hid. unfold hides, matches_doc. destruct (applicable g (dummy p) s); [|reflexivity]. cbn [andb].
+    destruct (stype_eqb (s_type s) TMacro).
+    - cbn. reflexivity.
+    - rewrite Hid. cbn. rewrite !andb_false_r. reflexivity.
+  Qed.
+
+  Lemma anyhide_run_queries nomsg nofail fs wp s0 :
+    is_nil (s_id s0) = false -> (forall e, finding_of fs wp e -> hides pm true e s0 = false) ->
+    anyhide (run_queries nomsg nofail fs wp) s0 = false.
+  Proof.
+    intros Hid Hno. apply forall_existsb_false. intros [e g] Hq. cbn [fst snd].
+    apply run_queries_only in Hq. destruct Hq as [-> [He|[f [_ ->]]]].
+    - apply Hno. exact He.
+    - apply dummy_hides_nothing. exact Hid.
+  Qed.
+
+  Lemma bail_no_entry l : (forall x, In x l -> str_eqb (s_id x) UNMATCHED = false) -> bail l = false.
+  Proof. intros H. apply forall_existsb_false. intros x Hx. rewrite (H x Hx). reflexivity. Qed.
+
+  Lemma covers_no_entry (sel : supp -> bool) l s :
+    (forall x, In x l -> str_eqb (s_id x) UNMATCHED = false) -> existsb (fun s2 => sel s2 && covers s2 s) l = false.
+  Proof.
+    intros H. apply forall_existsb_false. intros x Hx. unfold covers. rewrite (H x Hx).
+    cbn. apply andb_false_r.
+  Qed.
+
+  (* single executor, completeness: a global (no file) suppression that hides no finding of
+     the run is reported, when no unmatchedSuppression entry and no filter stands in the way *)
+  Theorem single_global_unmatched_reported cfg nomsg nofail fs wp o s0 :
+    whole_run pm None cfg nomsg nofail fs wp = Some o -> Forall (inline_present nomsg) fs ->
+    c_info cfg = true ->
+    In s0 nomsg -> s_matched s0 = false -> s_inline s0 = false -> s_file s0 = [] -> s_hash s0 = 0 ->
+    is_nil (s_id s0) = false -> str_eqb (s_id s0) CHECKERSREPORT = false ->
+    (forall x, In x nomsg -> str_eqb (s_id x) UNMATCHED = false) ->
+    filtered_out (c_filters cfg) s0 = false ->
+    (forall e, finding_of fs wp e -> hides pm true e s0 = false) ->
+    exists s, In s (o_unmatched o) /\ static s = static s0.
+  Proof.
+    intros H Hin Hinfo Hi Hm Hinl Hfile Hhash Hid Hcr Hnoum Hfil Hno.
+    apply whole_run_single_spec in H; [|exact Hin]. cbv zeta in H. destruct H as (_ & _ & Hu & _).
+    set (Q := run_queries nomsg nofail fs wp) in *. set (M := flat_map f_locs fs) in *.
+    exists (derive Q M s0). split; [|reflexivity]. apply Hu. split; [exact Hinfo|]. split.
+    { intros ->. destruct Hi. }
+    assert (Hnoum' : forall x, In x (map (derive Q M) nomsg) -> str_eqb (s_id x) UNMATCHED = false).
+    { intros x Hx. apply in_map_iff in Hx. destruct Hx as [x0 [<- Hx0]]. apply (Hnoum x0 Hx0). }
+    split; [apply bail_no_entry; exact Hnoum'|]. right. right.
+    unfold group_reports. split; [apply in_map; exact Hi|]. split.
+    - unfold unmatched_global, derive, is_local. cbn. rewrite Hinl, Hm, Hfile, Hhash, Hcr.
+      unfold Q. rewrite (anyhide_run_queries nomsg nofail fs wp s0 Hid Hno). cbn.
+      rewrite andb_false_r. reflexivity.
+    - split; [apply covers_no_entry; exact Hnoum'|]. exact Hfil.
+  Qed.
 End WithPathMatch.
